@@ -70,7 +70,9 @@ def _cases(draw, tier):
     b = draw(_gradeblock(d, cap)) if kind == "bin" else None
     opts = {"cse": draw(st.booleans()), "graded": draw(st.booleans()), "symcls": draw(st.sampled_from([None, "sympy"])),
             "wrapper": draw(st.booleans()), "pretty_blade": draw(st.sampled_from([None, "e", "g"]))}
-    return {"cfg": cfg, "op": op, "a": a, "b": b, "opts": opts}
+    vmode = draw(st.sampled_from(["frac", "frac", "frac", "bool", "bigint", "int", "complex"])) if op in EXACT and op not in ("inv", "div") else "frac"
+    return {"cfg": cfg, "op": op, "a": a, "b": b, "opts": opts, "vmode": vmode,
+            "build": draw(st.sampled_from(["ctor", "ctor", "blades"]))}
 
 
 def cases(tier):
@@ -82,14 +84,46 @@ def _keys(ref, opnd):
     return list(ref.keys_of_grades(opnd["grades"]))
 
 
+def _conv(case, floaty):
+    vm = case.get("vmode", "frac")
+    if floaty:
+        return lambda v: float(frac(v))
+    if vm == "bool":
+        return lambda v: bool(frac(v) > 0)
+    if vm == "int":
+        return lambda v: int(frac(v).numerator)
+    if vm == "bigint":
+        return lambda v: int(frac(v).numerator) * 3000001 + 7      # products of three exceed 2**63: exact Python ints
+    if vm == "complex":
+        return lambda v: complex(float(frac(v)), 1.0)
+    return frac
+
+
+def _mv(alg, ref, keys, vals, how):
+    """Build the operand through the constructor or as a sum of alg.blades (the way users write e.g. 3*alg.blades.e14)."""
+    if not keys:
+        return alg.multivector()
+    if how == "blades":
+        acc = None
+        for k, v in zip(keys, vals):
+            term = alg.blades[ref.bin2name[k]] * v
+            acc = term if acc is None else acc + term
+        return acc
+    return alg.multivector(keys=tuple(keys), values=list(vals))
+
+
 def _run(alg, op, case, floaty, ref):
-    conv = (lambda v: float(frac(v))) if floaty else frac
+    conv = _conv(case, floaty)
+    how = case.get("build", "ctor") if case.get("vmode", "frac") == "frac" and not floaty else "ctor"
     ka = _keys(ref, case["a"])
-    x = alg.multivector(keys=tuple(ka), values=[conv(v) for v in case["a"]["vals"]]) if ka else alg.multivector()
-    y = None
-    if case["b"] is not None:
-        kb = _keys(ref, case["b"])
-        y = alg.multivector(keys=tuple(kb), values=[conv(v) for v in case["b"]["vals"]]) if kb else alg.multivector()
+    try:
+        x = _mv(alg, ref, ka, [conv(v) for v in case["a"]["vals"]], how)
+        y = None
+        if case["b"] is not None:
+            kb = _keys(ref, case["b"])
+            y = _mv(alg, ref, kb, [conv(v) for v in case["b"]["vals"]], how)
+    except Exception as e:
+        return "exc", f"{type(e).__name__}: building the operands: {str(e)[:160]}"
     try:
         r = getattr(x, op)(y) if y is not None else getattr(x, op)()
         return "ok", r
@@ -122,7 +156,8 @@ def evaluate(case):
         labels.append("opt:nocse")
     if 0 in ref.sig:
         labels.append("sig:degenerate")
-    key = [cfg["sig"], cfg.get("start"), cfg.get("basis"), op, case["a"]["grades"], case["b"] and case["b"]["grades"], o]
+    key = [cfg["sig"], cfg.get("start"), cfg.get("basis"), op, case["a"]["grades"], case["b"] and case["b"]["grades"], o, case.get("vmode"), case.get("build")]
+    labels += [f"vmode:{case.get('vmode', 'frac')}", f"build:{case.get('build', 'ctor')}"]
     if cfg.get("basis"):
         labels.append("basis:custom")
     if s0 == "exc":
@@ -135,7 +170,7 @@ def evaluate(case):
         raise Violation("succeeds-in-every-mode", op, f"{desc}: succeeds with default options but raised {r1}",
                         exc=r1.split(":")[0], default=kd.show(e0))
     e1 = kd.to_dict(r1, op=op)
-    tol = None if op in EXACT else 1e-9
+    tol = None if op in EXACT and case.get("vmode", "frac") != "complex" else 1e-9
     ok, why = kd.elem_equal(e1, e0, tol)
     if not ok:
         raise Violation("equal-elements", op, f"{desc}: {why}", with_options=kd.show(e1), default=kd.show(e0))
@@ -149,11 +184,13 @@ def evaluate(case):
     # anchor to the reference
     if op in EXACT:
         Rr = R(d, ref.T)
-        da = {k: frac(v) for k, v in zip(_keys(ref, case["a"]), case["a"]["vals"])}
-        db = {k: frac(v) for k, v in zip(_keys(ref, case["b"]), case["b"]["vals"])} if case["b"] else None
+        cv = _conv(case, False)
+        da = {k: cv(v) for k, v in zip(_keys(ref, case["a"]), case["a"]["vals"])}
+        db = {k: cv(v) for k, v in zip(_keys(ref, case["b"]), case["b"]["vals"])} if case["b"] else None
         try:
             exp = r_apply(Rr, op, da, db)
-            ok, why = kd.elem_equal(e0, exp)
+            ok, why = kd.elem_equal({k: (int(v) if isinstance(v, bool) else v) for k, v in e0.items()},
+                                    {k: (int(v) if isinstance(v, bool) else v) for k, v in exp.items()}, tol)
             if not ok:
                 raise Violation("value", op, f"{desc} (default options) vs reference: {why}", observed=kd.show(e0), expected=kd.show(exp))
         except RefUndefined:
